@@ -144,3 +144,22 @@ VARIANTS += [
       "                if the_name is not None:",
       "                if the_name is None:", "fire", "D18.7"),
 ]
+
+VARIANTS += [
+    V("tour-duplicates-not-remembered", K,
+      "                done_nodes.add(node)\n", "", "fire", "D18.4"),
+    V("tour-section-marker-inverted", K,
+      "        if line == \"TOUR_SECTION\":",
+      "        if line != \"TOUR_SECTION\":", "fire", "D18.4"),
+    V("tour-ids-stored-one-based", K,
+      "                nodes.append(node - 1)", "                nodes.append"
+      "(node)", "fire", "D18.4"),
+    V("explicit-format-dispatch-inverted", I,
+      "        if edge_weight_format == _EWF_UPPER_ROW:",
+      "        if edge_weight_format != _EWF_UPPER_ROW:", "fire", "D18.2"),
+    V("writer-omits-dimension", I,
+      "        collector(f\"{_KEY_DIMENSION}: {self.n_cities}\")\n", "",
+      "fire", "D18.3"),
+    V("writer-omits-eof", I, "        collector(_EOF)\n", "", "fire",
+      "D18.3"),
+]
